@@ -8,7 +8,9 @@ import vlib
 def bounds():
     b = [dict(Fns='{"sha2-256"}', Datas='{"d0", "d1", "d2"}', MaxOps=8),
          # identity-hashed blocks whose digests share bucket and stored prefix: an absent CID reaches another block's entry
-         dict(Fns='{"identity"}', Datas='{"d4", "d5"}', MaxOps=8)]
+         dict(Fns='{"identity"}', Datas='{"d4", "d5"}', MaxOps=8),
+         # a truncated digest (sha2-256 cut to 20 bytes): hash-on-read must compare at the length the CID records
+         dict(Fns='{"sha2-256/20"}', Datas='{"d1", "d3"}', MaxOps=8)]
     if vlib.tier() == "thorough":
         b.append(dict(Fns='{"sha2-256", "blake2b-256"}', Datas='{"d0", "d1"}', MaxOps=8))
         b.append(dict(Fns='{"sha2-512"}', Datas='{"d0", "d2", "d3"}', MaxOps=8))
@@ -24,7 +26,13 @@ def rand_cid(rng, fns, datas):
 def random_scenarios(rng, n, depth):
     out = []
     for _ in range(n):
-        fns = rng.sample(["sha2-256", "sha2-512", "blake2b-256", "sha3-256"], rng.choice([1, 2, 3]))
+        fns = rng.sample(["sha2-256", "sha2-512", "blake2b-256", "sha3-256", "sha2-256/20", "sha2-512/32"], rng.choice([1, 2, 3]))
+        # (a function together with its own truncation gives digests of which one is a PREFIX of the other for the same block;
+        #  the index is specified for prefix-free keys only - C08: "distinct equal-length keys" - so the two never meet here)
+        if "sha2-256" in fns and "sha2-256/20" in fns:
+            fns.remove("sha2-256")
+        if "sha2-512" in fns and "sha2-512/32" in fns:
+            fns.remove("sha2-512")
         datas = rng.sample(["d0", "d1", "d2", "d3"], rng.choice([2, 3, 4]))
         if rng.random() < 0.4:      # prefix-sharing identity digests
             # (only with blocks of >= 9 bytes: the store refuses digests shorter than 4 bytes by contract, ErrKeyTooShort)
@@ -107,8 +115,9 @@ def run(pid):
     rep.cov["distinct_nontrivial"] = total + n
     rep.cov["rule"] = ("one history per reachable TRANSITION of Blockstore.tla (all CIDs v0/v1 x raw/dag-pb over the configured hash functions, matching and "
                        "mismatching bytes, live and cancelled contexts, Put/PutMany/Get/Has/GetSize/DeleteBlock/HashOnRead) replayed on a real HashedBlockstore, "
-                       "plus seeded random histories over 5 hash functions (incl. identity digests that share bucket and stored prefix), 3 codecs and 7 block sizes (0 B .. 1 KiB); distinct by op sequence")
-    rep.assumptions = ["TLC + Json module", "block sizes are pairwise distinct so GetSize identifies the stored bytes"]
+                       "plus seeded random histories over 7 hash functions (incl. identity digests that share bucket and stored prefix, and digests truncated to 20 / 32 bytes), 3 codecs and 7 block sizes (0 B .. 1 KiB); distinct by op sequence")
+    rep.assumptions = ["TLC + Json module", "block sizes are pairwise distinct so GetSize identifies the stored bytes",
+                       "no two multihashes in one history have digests of which one is a prefix of the other (a hash function and its own truncation over the same block): the index is specified for prefix-free keys (C08); observed outside that precondition: the Put of the shorter one returns nil and stores nothing"]
     return rep.finish()
 
 
